@@ -341,6 +341,14 @@ fn c04() -> Property {
                 cases_per_seed: 257,
                 note: "every byte string of length <= 2 and a 16x16 grid of length-3 strings per first byte",
             },
+            Variant {
+                name: "typed-pairs",
+                weight: 1,
+                make: || Box::pin(scen::codec::run_c04_typed_pairs()),
+                max_steps: 3_000_000,
+                cases_per_seed: 1,
+                note: "two typed public values (12 x 9 type pairs: symbol, symbol-ref, lazy value, uuid, timestamp, decimals, arrays, strings, binaries, numbers) decoded one after the other from a valid encoding, through both readers: neither panics, both come out as they do alone",
+            },
         ],
         quick_runs: 6 * 700 * 20,
         thorough_runs: 6 * 700 * 2000,
@@ -483,6 +491,14 @@ fn c13() -> Property {
             max_steps: 3_000_000,
             cases_per_seed: 1,
             note: "real client <-> scripted peer: attach refused by an immediate detach, attach never answered, idle link closed / detached by the peer, session ended by the peer; sibling link and connection must survive",
+        },
+        Variant {
+            name: "frames-after-local-end",
+            weight: 1,
+            make: || Box::pin(scen::c13p::run_frames_after_local_end()),
+            max_steps: 3_000_000,
+            cases_per_seed: 1,
+            note: "real client ends a session (with or without error) while links are attached; the scripted peer sends echo flows, a transfer, an attach before it answers with its end: nothing may be written on the channel after the local end",
         }],
         quick_runs: 6_000,
         thorough_runs: 300_000,
@@ -548,6 +564,14 @@ fn c12() -> Property {
                 max_steps: 3_000_000,
                 cases_per_seed: 1,
             note: "real listener connection <-> scripted peer",
+            },
+            Variant {
+                name: "flush-before-answering-close",
+                weight: 1,
+                make: || Box::pin(scen::c12::run_flush_before_close()),
+                max_steps: 3_000_000,
+                cases_per_seed: 1,
+                note: "real client with 3-10 sessions; the peer stops reading, the application ends every session, the peer closes (with or without error) and reads again: every queued end must be written before the answering close",
             },
         ],
         quick_runs: 20_000,
@@ -737,6 +761,14 @@ fn c07() -> Property {
                 max_steps: 3_000_000,
                 cases_per_seed: 1,
             note: "real listener session (receiving) <-> scripted sending peer, incl. transfer frames for a handle that is not attached; exact next-incoming-id at every quiescence",
+            },
+            Variant {
+                name: "listener-sender-vs-scripted-receiver",
+                weight: 1,
+                make: || Box::pin(scen::c08::run_listener_window()),
+                max_steps: 3_000_000,
+                cases_per_seed: 1,
+            note: "real listener-side sender <-> scripted receiver whose begin states a session window of 1, 2 or 5000 and whose flows (also pipelined behind the attach, before the link is accepted) restate it: held transfers must come out once the window is open",
             },
         ],
         quick_runs: 6000,
